@@ -50,21 +50,29 @@ Init == /\ mode \in Modes
         /\ inp \in Seqs(Pool(mode), MaxN)
         /\ res = inp /\ i = 1 /\ j = 0 /\ v = VNull /\ pc = "outer"
 
+\* every action reports that it was taken (counted by the harness: TLC's own
+\* -coverage instruments every operator of Val.tla and costs more than the run)
+Act(name) == IF Export THEN PrintT("@@ACT@@" \o ToJson(name)) ELSE TRUE
+
 OuterBegin == /\ pc = "outer" /\ i <= Len(res)
               /\ v' = KeyOf(mode, res[i]) /\ j' = i - 1 /\ pc' = "inner"
               /\ UNCHANGED <<mode, inp, res, i>>
+              /\ Act("OuterBegin")
 OuterEnd   == /\ pc = "outer" /\ i > Len(res)
               /\ pc' = "done"
               /\ UNCHANGED <<mode, inp, res, i, j, v>>
+              /\ Act("OuterEnd")
 InnerSwap  == /\ pc = "inner" /\ j >= 1
               /\ Cmp(mode, v, KeyOf(mode, res[j])) < 0
               /\ res' = [res EXCEPT ![j] = res[j + 1], ![j + 1] = res[j]]
               /\ j' = j - 1
               /\ UNCHANGED <<mode, inp, i, v, pc>>
+              /\ Act("InnerSwap")
 InnerBreak == /\ pc = "inner"
               /\ (IF j < 1 THEN TRUE ELSE Cmp(mode, v, KeyOf(mode, res[j])) >= 0)
               /\ i' = i + 1 /\ pc' = "outer"
               /\ UNCHANGED <<mode, inp, res, j, v>>
+              /\ Act("InnerBreak")
 
 Next == OuterBegin \/ OuterEnd \/ InnerSwap \/ InnerBreak
 Spec == Init /\ [][Next]_vars
